@@ -2033,7 +2033,31 @@ class Engine:
             return None
         if v is None and nm is not None and nm not in self.locals:
             f = (self.follow or {}).get(nm)
+            if f is None and self.follow:
+                f = self._module_alias(nm)
             return (f, (), {}, None) if f is not None else None
+        return None
+
+    _CACHE_DECOS = {"lru_cache", "cache"}
+
+    def _module_alias(self, nm, depth=0):
+        """a module-level name bound once to a followed helper - directly (`g = _f`) or through a cache (`g = functools.lru_cache(maxsize=None)(_f)`,
+        `g = functools.cache(_f)`: the cached function returns what the function returns, a helper that is followed being a function of its arguments)"""
+        if depth > 3:
+            return None
+        defs = [st_ for st_ in self.mod.tree.body if isinstance(st_, ast.Assign) and len(st_.targets) == 1 and isinstance(st_.targets[0], ast.Name)
+                and st_.targets[0].id == nm]
+        if len(defs) != 1 or any(isinstance(n, ast.Name) and isinstance(n.ctx, ast.Store) and n.id == nm and n is not defs[0].targets[0] for n in ast.walk(self.mod.tree)):
+            return None
+        v = defs[0].value
+        if isinstance(v, ast.Call) and len(v.args) == 1 and not v.keywords:
+            fn_ = v.func
+            if isinstance(fn_, ast.Call):
+                fn_ = fn_.func                      # lru_cache(maxsize=None)(f)
+            if (dotted(fn_) or "").split(".")[-1] in self._CACHE_DECOS:
+                v = v.args[0]
+        if isinstance(v, ast.Name):
+            return (self.follow or {}).get(v.id) or self._module_alias(v.id, depth + 1)
         return None
 
     def _callee(self, call, st):
@@ -2078,6 +2102,8 @@ class Engine:
                 if m_ is None:
                     return None
                 fnode, kind = m_
+                if kind == "property" and not getattr(call, "_c13_getter", False):
+                    return None                 # the value of the property is what is called
                 if kind == "static":
                     return (fnode, (), {}, None)
                 if kind == "class":
@@ -2085,15 +2111,39 @@ class Engine:
                 return (fnode, (owner,), {}, None) if owner[0] == "obj" else (fnode, (), {}, None)
         return None
 
-    def _method(self, q, name):
-        """(function node, 'method' | 'static' | 'class') of a method defined in the body of class q"""
+    def _mro(self, q, seen=None):
+        """the class and the classes of the module it inherits from, nearest first (depth first, left to right: exact for single inheritance)"""
+        seen = seen if seen is not None else []
         c = self.classes.get(q)
-        if c is None:
-            return None
-        for n in c.body:
-            if isinstance(n, ast.FunctionDef) and n.name == name:
-                decos = {dotted(d) for d in n.decorator_list}
-                return n, ("static" if "staticmethod" in decos else "class" if "classmethod" in decos else "method")
+        if c is None or q in seen:
+            return seen
+        seen.append(q)
+        for b in c.bases:
+            if isinstance(b, ast.Name) and b.id in self.classes:
+                self._mro(b.id, seen)
+        return seen
+
+    def _method(self, q, name):
+        """(function node, 'method' | 'static' | 'class' | 'property') of a method defined in the body of class q or of a class of the module it inherits
+        from"""
+        for q2 in self._mro(q):
+            for n in self.classes[q2].body:
+                if isinstance(n, ast.FunctionDef) and n.name == name:
+                    decos = {(dotted(d) or "").split(".")[-1] for d in n.decorator_list}
+                    if decos & {"setter", "deleter"}:
+                        continue
+                    return n, ("static" if "staticmethod" in decos else "class" if "classmethod" in decos
+                               else "property" if decos & {"property", "cached_property"} else "method")
+        return None
+
+    def _class_attr(self, q, name):
+        """the expression a class body (or that of a base class of the module) binds `name` to, or None"""
+        for q2 in self._mro(q):
+            for n in self.classes[q2].body:
+                if isinstance(n, ast.Assign) and len(n.targets) == 1 and isinstance(n.targets[0], ast.Name) and n.targets[0].id == name:
+                    return n.value
+                if isinstance(n, ast.AnnAssign) and isinstance(n.target, ast.Name) and n.target.id == name and n.value is not None:
+                    return n.value
         return None
 
     def _ctor(self, q):
@@ -2109,8 +2159,16 @@ class Engine:
                 names.append(n.target.id)
                 if n.value is not None:
                     defaults[n.target.id] = n.value
+        for q2 in self._mro(q)[1:]:
+            for n in self.classes[q2].body:
+                if isinstance(n, ast.AnnAssign) and isinstance(n.target, ast.Name) and n.target.id not in names:
+                    names.append(n.target.id)
+                    if n.value is not None:
+                        defaults[n.target.id] = n.value
         if not names:
-            raise Unsupported(f"class {q}: no annotated attributes")
+            if call.args or call.keywords:
+                raise Unsupported(f"class {q}: no annotated attributes")
+            return ("obj", q, ())
         vals = {}
         pos = []
         for a in call.args:
@@ -2474,11 +2532,20 @@ class Engine:
             if isinstance(pat, ast.MatchClass) and not pat.patterns and not pat.kwd_patterns and isinstance(pat.cls, (ast.Name, ast.Attribute)):
                 # `case str():` is isinstance(subject, str)
                 return ast.Call(func=ast.Name(id="isinstance", ctx=ast.Load()), args=[subj, pat.cls], keywords=[])
-            if isinstance(pat, ast.MatchSequence) and isinstance(subj, (ast.Tuple, ast.List)) and len(subj.elts) == len(pat.patterns) \
-                    and not any(isinstance(p_, ast.MatchStar) for p_ in pat.patterns) and not any(isinstance(e_, ast.Starred) for e_ in subj.elts):
-                # a tuple written in place matched against a sequence pattern of the same length: element by element
+            if isinstance(pat, ast.MatchSequence) and isinstance(subj, (ast.Tuple, ast.List)) and not any(isinstance(p_, ast.MatchStar) for p_ in pat.patterns) \
+                    and not any(isinstance(e_, ast.Starred) for e_ in subj.elts):
+                # a tuple written in place matched against a sequence pattern: element by element (never, when the lengths differ)
+                if len(subj.elts) != len(pat.patterns):
+                    return ast.Constant(value=False)
                 ts = [test_of(p_, e_, binds) for p_, e_ in zip(pat.patterns, subj.elts)]
                 return None if any(t is None for t in ts) else conj(ts)
+            if isinstance(pat, ast.MatchSequence) and isinstance(subj, (ast.Name, ast.Attribute, ast.Subscript)) \
+                    and not any(isinstance(p_, ast.MatchStar) for p_ in pat.patterns):
+                # a sequence pattern on a value that is a tuple (a shape, an item of a tuple, ...): the length, then element by element
+                ln = ast.Compare(left=ast.Call(func=ast.Name(id="len", ctx=ast.Load()), args=[subj], keywords=[]), ops=[ast.Eq()],
+                                 comparators=[ast.Constant(value=len(pat.patterns))])
+                ts = [test_of(p_, ast.Subscript(value=subj, slice=ast.Constant(value=i_), ctx=ast.Load()), binds) for i_, p_ in enumerate(pat.patterns)]
+                return None if any(t is None for t in ts) else conj([ln] + ts)
             return None
 
         class _Sub(ast.NodeTransformer):
@@ -2488,15 +2555,33 @@ class Engine:
             def visit_Name(self, n):
                 return self.mp.get(n.id, n) if isinstance(n.ctx, ast.Load) else n
 
-        if not isinstance(node.subject, (ast.Name, ast.Attribute, ast.Constant, ast.Subscript, ast.Compare, ast.BoolOp, ast.UnaryOp, ast.Tuple)):
-            return None
-        if isinstance(node.subject, ast.Tuple) and not all(isinstance(e_, (ast.Name, ast.Attribute, ast.Constant, ast.Subscript, ast.Compare, ast.BoolOp, ast.UnaryOp))
-                                                           for e_ in node.subject.elts):
-            return None
+        # the subject is evaluated once: anything but a plain expression (a call, ...) is bound to a temporary first - as a whole, or item by item
+        # for a tuple written in place
+        plain = (ast.Name, ast.Attribute, ast.Constant, ast.Subscript, ast.Compare, ast.BoolOp, ast.UnaryOp)
+        pre_subject = []
+
+        def temp(expr):
+            self.genseq = getattr(self, "genseq", 0) + 1
+            nm = f"_match${self.genseq}"
+            self.locals = set(self.locals) | {nm}
+            a_ = ast.Assign(targets=[ast.Name(id=nm, ctx=ast.Store())], value=expr, type_comment=None)
+            for n in ast.walk(a_):
+                if not hasattr(n, "lineno") and isinstance(n, (ast.expr, ast.stmt)):
+                    ast.copy_location(n, node)
+            a_._vparent, a_._vmod = getattr(node, "_vparent", None), getattr(node, "_vmod", None)
+            pre_subject.append(a_)
+            return ast.copy_location(ast.Name(id=nm, ctx=ast.Load()), node)
+        subject = node.subject
+        if isinstance(subject, ast.Tuple) and not any(isinstance(e_, ast.Starred) for e_ in subject.elts):
+            subject = ast.copy_location(ast.Tuple(elts=[e_ if isinstance(e_, plain) else temp(e_) for e_ in subject.elts], ctx=ast.Load()), subject)
+        elif not isinstance(subject, plain):
+            if isinstance(subject, (ast.Lambda, ast.GeneratorExp, ast.ListComp, ast.Await, ast.Yield, ast.YieldFrom, ast.NamedExpr, ast.Starred)):
+                return None
+            subject = temp(subject)
         orelse = []
         for case in reversed(node.cases):
             binds = []
-            t = test_of(case.pattern, node.subject, binds)
+            t = test_of(case.pattern, subject, binds)
             if t is None:
                 return None
             body = case.body
@@ -2524,7 +2609,7 @@ class Engine:
             ast.copy_location(cur, case.pattern)
             cur._vparent, cur._vmod = getattr(node, "_vparent", None), getattr(node, "_vmod", None)
             orelse = [cur]
-        return orelse
+        return pre_subject + orelse
 
     @staticmethod
     def _yields_once(fnode):
@@ -2542,9 +2627,10 @@ class Engine:
             p = getattr(p, "_vparent", None)
         return p is fnode
 
-    def _call_method(self, obj, name, argnodes, node, st):
+    def _call_method(self, obj, name, argnodes, node, st, getter=False):
         """run method `name` of an object of a module class in state `st` (which is updated); its value, or None when it has not exactly one path"""
         call = ast.copy_location(ast.Call(func=ast.Attribute(value=_Val.of(obj), attr=name, ctx=ast.Load()), args=list(argnodes), keywords=[]), node)
+        call._c13_getter = getter
         call._vparent, call._vmod = getattr(node, "_vparent", None), getattr(node, "_vmod", None)
         ast.copy_location(call.func, node)
         ast.copy_location(call.func.value, node)
@@ -2817,6 +2903,7 @@ class Engine:
                     if r is not None:
                         nxt.append(s)
                         continue
+                    self._forkable(t)
                     a, b = s, s.fork()
                     a.add_fact(t, True)
                     b.add_fact(t, False)
@@ -3065,6 +3152,7 @@ class Engine:
             elif r is False:
                 outs.extend(self.block(node.orelse, [s]))
             else:
+                self._forkable(t)
                 a, b = s, s.fork()
                 a.add_fact(t, True)
                 b.add_fact(t, False)
@@ -3075,6 +3163,23 @@ class Engine:
                 if fb or not fa:
                     outs.extend(self.block(node.orelse, [b]))
         return outs
+
+    def _forkable(self, t):
+        """a test that cannot be decided is followed both ways as if it were independent of everything else.  That is wrong for a test on something
+        computed from an object this engine built itself (an attribute / method of an object of a module class that was not followed): its outcome is
+        tied to the fields of the object, and following the impossible arm would `prove` things about code that is never run."""
+        def has_obj(v, depth=0):
+            if depth > 30:
+                return False
+            if isinstance(v, Lin):
+                return any(has_obj(a, depth + 1) for a in v.t)
+            if isinstance(v, tuple) and v:
+                if v[0] == "obj" and len(v) == 3 and v[1] in self.classes:
+                    return True
+                return any(has_obj(x, depth + 1) for x in v if isinstance(x, (tuple, Lin)))
+            return False
+        if has_obj(t):
+            raise Unsupported(f"a test on something computed from an object of a class of the module by code that is not followed: {show(t)[:100]}")
 
     def feasible(self, st, t):
         try:
@@ -3856,6 +3961,21 @@ class Engine:
                 for k_, v_ in base[2]:
                     if k_ == node.attr:
                         return v_
+                if base[1] in self.classes and isinstance(node.ctx, ast.Load):
+                    m_ = self._method(base[1], node.attr)
+                    if m_ is not None and m_[1] == "property":
+                        r = self._call_method(base, node.attr, [], node, st, getter=True)
+                        if r is None:
+                            raise Unsupported(f"property {base[1]}.{node.attr} has several paths")
+                        return r
+                    ca = self._class_attr(base[1], node.attr) if m_ is None else None
+                    if ca is not None:
+                        saved = self.locals
+                        self.locals = set()
+                        try:
+                            return self.ev(ca, State())
+                        finally:
+                            self.locals = saved
             if node.attr == "T":
                 return ("op", "T", (base,))
             if node.attr == "size" and not isinstance(base, S):
@@ -3952,6 +4072,13 @@ class Engine:
                         tests.append(t_ if on == "Eq" else ("not", t_))
                 else:
                     neg = on in ("NotEq", "IsNot")
+                    kb = lambda v_: _is_k(v_) and isinstance(v_[1], bool)
+                    if on in ("Eq", "NotEq", "Is", "IsNot") and (kb(a) != kb(b)) and self._is_bool(b if kb(a) else a):
+                        # a truth value compared with True / False is itself or its negation
+                        tv, kv = (b, a[1]) if kb(a) else (a, b[1])
+                        t_ = tv if kv else (tv[1] if isinstance(tv, tuple) and tv[:1] == ("not",) else ("not", tv))
+                        tests.append((t_[1] if isinstance(t_, tuple) and t_[:1] == ("not",) else ("not", t_)) if neg else t_)
+                        continue
                     if on in ("Eq", "NotEq", "Is", "IsNot"):
                         a, b = sorted((a, b), key=repr)
                         on = "Eq" if on in ("Eq", "NotEq") else "Is"
@@ -3991,7 +4118,14 @@ class Engine:
                 return self.ev(node.orelse, st)
             return ("ite", t, self.ev(node.body, st), self.ev(node.orelse, st))
         if isinstance(node, (ast.Tuple, ast.List)):
-            return ("tuple", tuple(self.ev(e, st) for e in node.elts))
+            out = []
+            for e in node.elts:
+                v = self.ev(e, st)
+                if isinstance(v, tuple) and v[:1] == ("star",) and isinstance(v[1], tuple) and v[1][:1] == ("tuple",):
+                    out.extend(v[1][1])          # [a, *[b, c]] is [a, b, c]
+                else:
+                    out.append(v)
+            return ("tuple", tuple(out))
         if isinstance(node, ast.Set):
             return ("set", tuple(sorted((self.ev(e, st) for e in node.elts), key=repr)))
         if isinstance(node, ast.Dict) and node.keys and all(k is not None for k in node.keys):
@@ -4341,6 +4475,30 @@ class Engine:
             recv = self.ev(node.func.value, st)
         if attr == "format" and recv is not None and self.is_str(recv):
             return self.format(as_S(recv), args, kws, node, st)
+        if attr in ("rstrip", "lstrip", "strip", "format_map", "translate", "removesuffix", "removeprefix") and recv is None and name is not None \
+                and isinstance(node.func, ast.Attribute):
+            recv = self.ev(node.func.value, st)
+        if attr in ("rstrip", "lstrip", "strip") and isinstance(recv, S) and nargs <= 1 and not kws and (nargs == 0 or (isinstance(args[0], S) and args[0].text() is not None)):
+            r_ = self._strip(recv, attr, args[0].text() if nargs else None)
+            if r_ is not None:
+                return r_
+        if attr == "format_map" and isinstance(recv, S) and nargs == 1 and not kws and isinstance(args[0], tuple) and args[0][:1] == ("dict",) \
+                and all(isinstance(k_, S) and k_.text() is not None for k_, _ in args[0][1]):
+            return self.format(recv, [], {k_.text(): v_ for k_, v_ in args[0][1]}, node, st)          # template.format(**mapping)
+        if name == "str.maketrans" and nargs == 2 and not kws and all(isinstance(a, S) and a.text() is not None for a in args) and len(args[0].text()) == len(args[1].text()):
+            return ("maketrans", args[0].text(), args[1].text())
+        if attr == "translate" and recv is not None and nargs == 1 and not kws and isinstance(args[0], tuple) and args[0][:1] == ("maketrans",):
+            # a table of single characters: the replacements one after the other (exact when no character is both replaced and a replacement)
+            src, dst = args[0][1], args[0][2]
+            pairs = [(a, b) for a, b in zip(src, dst) if a != b]
+            if not (set(a for a, _ in pairs) & set(b for _, b in pairs)) and len(set(src)) == len(src):
+                out = recv
+                for a, b in pairs:
+                    if isinstance(out, S) and out.text() is not None:
+                        out = S((("lit", out.text().replace(a, b)),))
+                    else:
+                        out = ("op", ".replace", (out, S((("lit", a),)), S((("lit", b),))))
+                return out
         if attr == "join" and nargs == 1 and not kws:
             if recv is None and name is not None:
                 recv = self.ev(node.func.value, st)
@@ -4382,6 +4540,28 @@ class Engine:
             return ("op", nm, (), (("@site", Lin(c=getattr(node, "lineno", 0) * 1000 + getattr(node, "col_offset", 0))),))
         return ("op", nm, tuple(args)) if not kws else ("op", nm, tuple(args), tuple(sorted(kws.items(), key=lambda kv: kv[0])))
 
+    def _strip(self, v, how, chars):
+        """S.rstrip / lstrip / strip(chars) when the end(s) concerned are literal text that is not stripped away entirely (what lies further in - a field,
+        an opaque piece - is then never reached); None when that cannot be said"""
+        if v.text() is not None:
+            return S((("lit", getattr(v.text(), how)(chars)),))
+        parts = list(v.p)
+        if how in ("rstrip", "strip"):
+            if not parts or parts[-1][0] != "lit":
+                return None
+            t = parts[-1][1].rstrip(chars)
+            if not t:
+                return None
+            parts[-1] = ("lit", t)
+        if how in ("lstrip", "strip"):
+            if not parts or parts[0][0] != "lit":
+                return None
+            t = parts[0][1].lstrip(chars)
+            if not t:
+                return None
+            parts[0] = ("lit", t)
+        return S(parts)
+
     def _pin(self, v):
         if self.pins and isinstance(v, Lin):
             for at, val in self.pins.items():
@@ -4419,6 +4599,10 @@ class Engine:
             i0, i1 = v[2][1]
             if i0 == full and not (isinstance(i1, tuple) and i1[:1] == ("sl",)):
                 return lin(("len", origin(v[1])))           # a column m[:, j]
+            if isinstance(i0, tuple) and i0[:1] == ("sl",) and not (isinstance(i1, tuple) and i1[:1] == ("sl",)):
+                n = self.slice_len(("slice", ("elem", v[1], ("tuple", (full, i1))), i0[1], i0[2], i0[3]), st.facts)       # part of a column m[a:b, j]
+                if n is not None:
+                    return n
             if i1 == full and not (isinstance(i0, tuple) and i0[:1] == ("sl",)):
                 return lin(("dim", origin(v[1]), 1))         # a row m[i, :]
         return lin(("len", origin(v)))
@@ -4468,8 +4652,95 @@ class Engine:
                 return None
         return tot
 
+    _NESTED = re.compile(r"\{[^{}]*:[^{}]*\{[^{}]*\}[^{}]*\}")
+
+    def _flatten_nested_specs(self, tmpl, args, kws):
+        """"{:<8s}{:{}d}".format(a, b, 16): a replacement field inside a format spec takes an argument of its own (numbered in the order the braces
+        open).  When those arguments are constants the template is rewritten without them - "{0:<8s}{1:16d}" - and (template, number of arguments the
+        original consumes) is returned; None when there is nothing nested or a nested argument is not a constant."""
+        txt = tmpl.text()
+        if txt is None or not self._NESTED.search(txt.replace("{{", "").replace("}}", "")):
+            return None
+        if any(isinstance(a, tuple) and a[:1] == ("star",) for a in args):
+            return None
+        out, i, auto, n = [], 0, 0, len(txt)
+
+        def value_text(name):
+            nonlocal auto
+            if name == "":
+                k = auto
+                auto += 1
+            elif name.isdigit():
+                k = int(name)
+            else:
+                v = kws.get(name)
+                k = None
+            if k is not None:
+                v = args[k] if k < len(args) else None
+            if isinstance(v, Lin) and v.is_const() and v.c.denominator == 1:
+                return str(int(v.c))
+            if isinstance(v, S) and v.text() is not None:
+                return v.text()
+            return None
+        while i < n:
+            c = txt[i]
+            if txt.startswith("{{", i) or txt.startswith("}}", i):
+                out.append(txt[i:i + 2])
+                i += 2
+                continue
+            if c != "{":
+                out.append(c)
+                i += 1
+                continue
+            j = i + 1
+            while j < n and txt[j] not in ":!}{":
+                j += 1
+            name = txt[i + 1:j]
+            if name == "":
+                name_out = str(auto)
+                auto += 1
+            else:
+                name_out = name
+            conv = ""
+            if j < n and txt[j] == "!":
+                conv = txt[j:j + 2]
+                j += 2
+            spec = ""
+            if j < n and txt[j] == ":":
+                j += 1
+                while j < n and txt[j] != "}":
+                    if txt[j] == "{":
+                        k = txt.find("}", j)
+                        if k < 0:
+                            return None
+                        inner = txt[j + 1:k]
+                        if ":" in inner or "!" in inner or "{" in inner:
+                            return None
+                        rep = value_text(inner)
+                        if rep is None:
+                            return None
+                        spec += rep
+                        j = k + 1
+                    else:
+                        spec += txt[j]
+                        j += 1
+            if j >= n or txt[j] != "}":
+                return None
+            out.append("{" + name_out + conv + (":" + spec if spec else "") + "}")
+            i = j + 1
+        return S((("lit", "".join(out)),)), auto
+
     def format(self, tmpl, args, kws, node, st):
         """tmpl.format(*args)"""
+        flat = self._flatten_nested_specs(tmpl, args, kws)
+        if flat is not None:
+            tmpl2, used = flat
+            res = self.format(tmpl2, args, kws, node, st)
+            for e in reversed(st.events):
+                if e.kind == "format" and e.d.get("value") is res:
+                    e.d["nfields"], e.d["template"] = Lin(c=used), tmpl
+                    break
+            return res
         if len(tmpl.p) == 1 and tmpl.p[0][0] == "str":
             # an opaque template (the parameter `form`): keep the application
             res = S((("fmt", tmpl.p[0][1], tuple(args)),))
